@@ -170,3 +170,12 @@ Theorem C06_refuted_D66 : exists t u,
   legacy_wake (tz_lu ny2024) (tz_ul ny2024) perfect all_off 5 t u = Some (tz_lu ny2024 t).
 Proof. exact refuted_D66. Qed.
 Print Assumptions C06_refuted_D66.
+
+(* ---------- removal with a failing sibling unsubscribe (D67) ---------- *)
+Theorem C06_stop_completes_conformant : forall cfg legacy raises, d_legacy_stop_fault cfg = false -> stop_completes cfg legacy raises = true.
+Proof. exact stop_completes_conformant. Qed.
+Print Assumptions C06_stop_completes_conformant.
+
+Theorem C06_refuted_D67 : stop_completes as_code true true = false /\ stop_completes as_code false true = true.
+Proof. exact refuted_D67. Qed.
+Print Assumptions C06_refuted_D67.
